@@ -274,6 +274,7 @@ def f_lit() -> Literal[1]: ...
 def f_ni() -> NI: ...
 def f_ie() -> IE: ...
 def f_t(x: T) -> T: ...
+def f_apply(x: T, f: Callable[[T], Any]) -> None: ...
 def f_listt(x: T) -> list[T]: ...
 
 
@@ -571,6 +572,9 @@ TEMPLATES: list[tuple[int, str, list[str], list[Any], tuple[str, list[str]], str
     (130, "in-keys", ["@R@ = 1 in {E}.keys()"], ["rvalue", "operands", 1, "callee", "expr"], ("subclass", ["typing.Mapping"]), ""),
     (146, "isfile", ["@R@ = os.path.isfile({E})"], ["rvalue", "args", 0], ("exact", ["pathlib.Path", B + "str", B + "bytes"]), ""),
     (155, "getsize", ["@R@ = os.path.getsize({E})"], ["rvalue", "args", 0], ("exact", ["pathlib.Path", B + "str", B + "bytes"]), ""),
+    # FURB190: the lambda's parameter takes the operand's type from the calling context (T of f_apply); `lambda t_: t_.upper()` ->
+    # `str.upper` is only justified for exactly str
+    (190, "str-method", ["f_apply({E}, lambda t_: t_.upper())"], ["expr", "args", 1, "body", "body", 0, "expr", "callee", "expr"], ("exact", [B + "str"]), ""),
     # assignments to the operand come last: with refurb's `allow_redefinition` they may re-type the name for what follows
     (186, "sorted", ["{E} = sorted({E})"], ["rvalue", "args", 0], ("exact", [B + "list"]), "dup lvalue"),
     (187, "reversed", ["{E} = reversed({E})"], ["rvalue", "args", 0], ("exact", [B + "list"]), "dup lvalue"),
@@ -578,6 +582,9 @@ TEMPLATES: list[tuple[int, str, list[str], list[Any], tuple[str, list[str]], str
 
 # path from the statement to the node the diagnostic is reported at (`Error.from_node`), per template key
 REPORT_PATH: dict[str, list[Any]] = {'del': [], 'slice-copy': ['rvalue'], 'is-true': ['rvalue'], 'eq-false': ['rvalue'], 'eq-list': ['rvalue', 'cond'], 'eq-dict': ['rvalue', 'cond'], 'eq-tuple': ['rvalue', 'cond'], 'eq-set': ['rvalue', 'cond'], 'len': ['rvalue', 'cond'], 'copy-merge': ['rvalue', 'left'], 'append': [], 'discard': [], 'set-loop': [], 'startswith': ['rvalue', 'left', 'args', 0], 'strip': ['rvalue'], 'in-keys': ['rvalue', 'operands', 1], 'isfile': ['rvalue'], 'getsize': ['rvalue'], 'sorted': [], 'reversed': []}
+REPORT_PATH["str-method"] = ["expr", "args", 1]
+# what the CHECK passes to is_same_type where that differs from what the property requires (FURB190 also accepts "unknown" and Any)
+MODEL_EXPECTED: dict[str, list[dict[str, str]]] = {"str-method": [{"e": "type", "name": "str"}, {"e": "none"}, {"e": "any"}]}
 REPORT_PATH.update({k: ["rvalue"] for k in ["or-list", "or-dict", "or-tuple", "or-str", "or-bytes", "or-int", "or-float", "or-bool", "or-set", "or-frozenset"]})
 
 # what the model must say about the operand for the diagnostic to be emitted (index into EXPECTED_LIST / helper)
@@ -1137,6 +1144,8 @@ def relevant(info: dict[str, Any], desc: dict[str, Any], mro_of: dict[str, list[
     """could this check have anything to say about an operand that refurb / mypy type like this?  (first pass: the
     real is_same_type / is_mapping_type / is_sized_type verdicts on refurb's answer, and the class mypy gives)"""
     mode, names = desc["req"]
+    if desc["code"] == 190:
+        return True  # one instantiation: tried with every operand
     if mode == "exact" and any(info["same"][expected_index(c)] for c in names):
         return True
     if mode == "subclass" and (info["mapping"] is True if desc["code"] == 130 else info["sized"] is True):
@@ -1230,7 +1239,7 @@ def run(ctx: Any) -> None:
             if desc["code"] == 123:
                 items.append({"v": v, "mode": "furb123", "callee": B + desc["callee"]})
             else:
-                items.append({"v": v, "mode": desc["req"][0], "expected": [to_expected(c) for c in desc["req"][1]]})
+                items.append({"v": v, "mode": desc["req"][0], "expected": MODEL_EXPECTED.get(desc["key"]) or [to_expected(c) for c in desc["req"][1]]})
         reqs.append({"verb": "same_batch", **ana["ctx"], "items": items})
     models: list[Any] = [None] * len(files)
     verdicts: list[Any] = [None] * len(files)
@@ -1335,7 +1344,7 @@ def run(ctx: Any) -> None:
                 continue
             cause = classify(op, root_node.get(idx), enums)
             sig = {"check": f"FURB{desc['code']}", "cause": cause}
-            if cause.startswith("other"):
+            if cause.startswith("other") or desc["code"] == 190:
                 mod = pf.name[:-3] + "."
                 sig.update({"refurb": kind_of(op["ty"]).replace(mod, ""), "mypy": kind_of(op["mty"]).replace(mod, "")})
             key = json.dumps(sig, sort_keys=True)
